@@ -361,7 +361,7 @@ def shape_axes(shape):
 
 
 def filled(value, kind):
-    def f(ex, path, shape, dtype=None, **kw):
+    def f(ex, path, shape=None, dtype=None, **kw):
         k = kind
         if dtype is bool:
             k = "bool"
@@ -598,7 +598,10 @@ def p_concatenate(ex, path, lst, axis=0):
     t = T((Axis("cat", total),), elem, kind=parts[0].kind)
     if all("cnt" in p.facts for p in parts):
         t.facts["cnt"] = lambda v, s, parts=parts: sum([p.facts["cnt"](v, s) for p in parts[1:]], parts[0].facts["cnt"](v, s))
-    t.parts = parts
+    flat = []
+    for p_ in parts:
+        flat += list(getattr(p_, "parts", None) or [p_])
+    t.parts = flat
     return t
 
 
@@ -653,6 +656,9 @@ def p_sort(ex, path, x, **kw):
         new.sorted_of = x
     if key is not None:
         cache[key] = (new, [f for f, _ in path.entries[mark:]])
+    if not hasattr(new, "sorted_of"):
+        new.sorted_of = x
+    ex.last_sorted = new
     return new
 
 
